@@ -1,21 +1,33 @@
 """Suite `headercache` (C11, header-proof part): the REAL code path of a `blockchain.block.header(h, cp)`
 proof -- `ElectrumX._merkle_proof` (range check) -> `DB.header_branch_and_root` ->
 `MerkleCache.branch_and_root / _extend_to / _level_for` -> `DB.fs_block_hashes` -> `DB.read_headers`
--- with any number of requests in flight, against `EV.HeaderCache` (`evdrv headercache`).
+-- with any number of requests in flight, against `EV.HeaderCache` (`evdrv headercache`), and the REAL
+code path of a back-out -- `BlockProcessor.reorg_chain` -> (worker thread) `BlockProcessor.backup_block`
+-> `DB.flush_backup` -> ... and wherever the current source truncates `DB.header_mc`.
 
 What is real: the coroutine code of all of the above (the unmodified functions of the classes in
-VERIF_REPO, bound to a `DB` object built without `__init__`), the `read_headers` closure that a
-worker thread would run (it is *performed* when the event sequence says so and reads
+VERIF_REPO, bound to a `DB` / `BlockProcessor` built without `__init__`), the `read_headers` closure
+that a worker thread would run (it is *performed* when the event sequence says so and reads
 `DB.state.height` and the headers file as they are then; its result is *delivered* to the suspended
-coroutine when the event sequence says so), `MerkleCache.truncate`, and `DB.flush_backup /
-backup_fs / flush_utxo_db`, which run in a real second thread that is held after the first of its
-two effects (`DB.state` assigned / `header_mc.truncate` returned) until the event sequence ends the
-back-out.  The ORDER of those two effects is therefore whatever the current source does; it is
-also measured once per run (`derive_order`) and handed to the Lean model as `Cfg.lowerFirst`, so
-re-ordering the code changes the schedule space explored here *and* the model it is compared with.
-What is emulated: the headers file (a bytearray), the UTXO/history back ends (no-ops), the hash
-function (free term constructor, as in suite `merkle`), and `append` (headers written, then
-`DB.state` raised -- the order of `flush_dbs`, read off the source).
+coroutine when the event sequence says so), `MerkleCache.truncate`, and the whole back-out: the
+`reorg_chain` coroutine is driven by hand on the main thread (= the event-loop thread), every job it
+hands to `run_in_thread` (`backup_block`) runs in a real second thread.  A back-out has two effects
+on readers per block: `DB.state` lowered and `header_mc.truncate`.  Both are *observed* (assignment
+hook on `DB.state`, `MerkleCache` subclass), together with the THREAD each one runs on; the second
+thread can be held right after an effect it performs, the coroutine is simply not resumed, so the
+event sequence decides what happens between the two effects.  ORDER and THREAD are therefore whatever the
+current source does; they are measured once per run (`derive_placement`), the order is handed to the
+Lean model as `Cfg.lowerFirst`, and moving the truncation (into `DB.flush_backup`, into
+`backup_block`, before the awaited job, ...) changes the schedules explored here *and* the model they
+are compared with.  Event `BB n` with more than one block to back out runs the blocks above the last
+one without interleaving and holds the last one (the model gets one `BB`/`BE` pair per block; the
+jobs of the blocks above the held one, which nothing is interleaved with, are run by the main thread
+to save thread switches -- the job of the held block, the measurement and the probes use the second
+thread).
+What is emulated: the headers file (a bytearray), the UTXO/history back ends (no-ops), blocks (one
+coinbase-like transaction, header = the previous hash), the hash function (free term constructor, as
+in suite `merkle`), and `append` (headers written, then `DB.state` raised -- the order of
+`flush_dbs`, read off the source).
 
 corr    after every event the canonical state line (cache length + level, truncation counter,
         visible length + half-done back-out, every request's wait point / pending read / result)
@@ -26,14 +38,28 @@ direct  judged on the real objects with a plain-Python merkle tree, independentl
         `cp < len(S)`; (refusal) a request with `cp` beyond the visible chain at its start is
         refused; (cache) whenever no back-out is half done the cache is the level of the visible
         hashes, and in the half-done window it is the level of the chain before the back-out.
+preempt the model's steps are atomic; the code's are only if no other thread can run between two
+        bytecodes of a step that touches the cache.  The probe (`preemption_probe`) tests that on the
+        current source, in both directions, with `sys.settrace` line stops: (T) the second thread is
+        stopped before every line of `MerkleCache` code it executes during a back-out, and a real
+        request is served to its answer on the main thread in that gap; (L) the main thread is
+        stopped before every line of `MerkleCache` code of a request step, and the second thread's
+        whole back-out job runs in that gap.  Both are judged by the direct oracle (answers, and the
+        cache once the back-out is over).  With the truncation on the event-loop thread there is no
+        line to stop at in (T) and the job of (L) does not touch the cache; with the truncation in
+        the worker thread both find a failing schedule (finding N7).
 """
+import array
 import os
+import sys
 import threading
 import types
 
 from harness.common import SuiteResult, rng_for, run_evdrv, ddmin
 
 HDR = 80
+UNSAFE_CLAUSE = 'header proof does not verify against any chain current during the request'
+CACHE_CLAUSE = 'header cache inconsistent with the chain'
 
 
 def term(x):
@@ -72,61 +98,74 @@ def plain_level(hs, dh):
     return out
 
 
-# ---- the worker thread that runs DB.flush_backup ------------------------------------------------
+# ---- the second thread: runs every job the back-out hands to run_in_thread -----------------------
 
 class Worker:
-    """One persistent thread; a job runs until its first recorded effect, is held there, and is
-    released by `finish`.  Hand-over by two semaphores, so exactly one thread runs at a time."""
+    """One persistent thread.  A job runs until it *pauses* (after the effect the back-out is to be held
+    at, and at a trace stop of the preemption probe) or ends; `resume` lets it run to its next pause.
+    Hand-over by two semaphores, so exactly one of the two threads runs at a time."""
 
     def __init__(self):
-        self.to_worker = threading.Semaphore(0)
-        self.to_main = threading.Semaphore(0)
+        # binary semaphores (a raw lock may be released by another thread than the one that took it)
+        self.to_worker = threading.Lock()
+        self.to_main = threading.Lock()
+        self.to_worker.acquire()
+        self.to_main.acquire()
         self.job = None
-        self.effects = []
         self.error = None
+        self.result = None
         self.running = False
-        self.thread = threading.Thread(target=self._loop, daemon=True, name='hc-flush-backup')
+        self.trace = None              # probe (T): a sys.settrace function for the job, or None
+        self.thread = threading.Thread(target=self._loop, daemon=True, name='hc-worker')
         self.thread.start()
 
     def _loop(self):
         while True:
             self.to_worker.acquire()
             try:
-                self.job()
+                if self.trace is not None:
+                    sys.settrace(self.trace)
+                try:
+                    self.result = self.job()
+                finally:
+                    sys.settrace(None)
             except BaseException as e:     # reported to the main thread
                 self.error = e
             self.running = False
             self.to_main.release()
 
-    def effect(self, kind, arg=None):
-        if threading.current_thread() is not self.thread:
-            return
-        self.effects.append((kind, arg))
-        if len(self.effects) == 1:
-            self.to_main.release()
-            self.to_worker.acquire()
+    def on_worker(self):
+        return threading.current_thread() is self.thread
+
+    def pause(self):
+        """called on the worker thread: hand over to the main thread until resumed"""
+        self.to_main.release()
+        self.to_worker.acquire()
 
     def begin(self, job):
-        self.job, self.effects, self.error, self.running = job, [], None, True
+        self.job, self.error, self.result, self.running = job, None, None, True
         self.to_worker.release()
         self.to_main.acquire()
         self._check()
         return self.running            # False: the job ended without pausing
 
-    def finish(self):
+    def resume(self):
         if self.running:
             self.to_worker.release()
             self.to_main.acquire()
         self._check()
-        return list(self.effects)
+        return self.running
 
     def _check(self):
         if self.error is not None:
             e, self.error = self.error, None
-            raise RuntimeError(f'flush_backup job raised {e!r}')
+            raise RuntimeError(f'worker job raised {e!r}')
 
 
 _worker = None
+_sink = None          # the effect list of the back-out in progress
+_hold_at = 0          # the second thread pauses after performing the effect that makes the list this long
+_inline_job = False   # a job that nothing can be interleaved with is being run by the main thread (see worker_step)
 
 
 def worker():
@@ -134,6 +173,20 @@ def worker():
     if _worker is None:
         _worker = Worker()
     return _worker
+
+
+def effect(kind, arg):
+    """an effect of a back-out on readers, with the thread it happens on: 'W' = the second thread,
+    'L' = the thread that drives the coroutines (the event loop's)"""
+    if _sink is None:
+        return
+    w = worker()
+    if w.on_worker():
+        _sink.append((kind, arg, 'W'))
+        if len(_sink) == _hold_at:
+            w.pause()
+    else:
+        _sink.append((kind, arg, 'W' if _inline_job else 'L'))
 
 
 # ---- the real objects ---------------------------------------------------------------------------
@@ -174,6 +227,9 @@ class _UtxoDB(_Batch):
     def write_batch(self):
         return _Batch()
 
+    def get(self, k):                  # undo information of a block without prevouts
+        return b''
+
 
 class _History:
     flush_count = 0
@@ -196,17 +252,55 @@ class _HeadersFile:
         self.buf[offset:offset + len(data)] = data
 
 
-def _classes():
+class _GenInput:
+    @staticmethod
+    def is_generation():
+        return True
+
+
+_FAKE_TX = types.SimpleNamespace(inputs=[_GenInput()], outputs=[])
+
+
+class FakeBlock:
+    """What `OnDiskBlock.streamed_block` gives `reorg_chain`: one coinbase-like transaction (no
+    prevouts, no outputs); the `header` is the previous block's hash (`coin.header_prevhash` = id)"""
+    size = 0
+
+    def __init__(self, height, prev):
+        self.height, self.header = height, prev
+
+    def __enter__(self):
+        return self
+
+    def __exit__(self, *a):
+        return False
+
+    def iter_txs_reversed(self):
+        yield _FAKE_TX, b'tx'
+
+
+class _NoEvent:
+    @staticmethod
+    def set():
+        pass
+
+    @staticmethod
+    def clear():
+        pass
+
+
+_cls = {}
+
+
+def classes():
+    if _cls:
+        return _cls
     import electrumx.server.db as dbmod
+    import electrumx.server.block_processor as bpmod
     from electrumx.lib.merkle import Merkle, MerkleCache
+    from electrumx.lib.hash import hex_str_to_hash
     from electrumx.server.session import ElectrumX
     from aiorpcx import RPCError
-    return dbmod, Merkle, MerkleCache, ElectrumX, RPCError
-
-
-def make_stub_classes():
-    dbmod, Merkle, MerkleCache, ElectrumX, RPCError = _classes()
-    w = worker()
 
     class StubDB(dbmod.DB):
         """The real DB class; only construction is bypassed and assignments to `state` are reported."""
@@ -217,28 +311,160 @@ def make_stub_classes():
         def __setattr__(self, k, v):
             object.__setattr__(self, k, v)
             if k == 'state':
-                w.effect('state', v.height)
+                effect('state', v.height)
 
     class HookedCache(MerkleCache):
+        """The real MerkleCache; the return of `truncate` is reported."""
+
         def truncate(self, length):
             try:
                 return MerkleCache.truncate(self, length)
             finally:
-                w.effect('truncate', length)
+                effect('truncate', length)
 
-    return StubDB, HookedCache
+    class StubBP(bpmod.BlockProcessor):
+        """The real BlockProcessor; construction is bypassed and `run_with_lock` does not lock or shield
+        (asyncio.shield needs a loop; the driver runs one back-out at a time and never cancels)."""
+
+        def __init__(self):
+            pass
+
+        async def run_with_lock(self, coro):
+            return await coro
+
+    class StubODB:
+        """`OnDiskBlock` of block_processor.py for the duration of the suite"""
+        source = None                  # the Real whose blocks are streamed
+
+        @classmethod
+        async def prefetch_many(cls, daemon, pairs, kind):
+            list(pairs)
+
+        @classmethod
+        async def streamed_block(cls, hex_hash):
+            return cls.source.block(hex_str_to_hash(hex_hash))
+
+    cache_codes = {f.__code__ for f in vars(MerkleCache).values() if hasattr(f, '__code__')}
+    _cls.update(dbmod=dbmod, bpmod=bpmod, Merkle=Merkle, MerkleCache=MerkleCache, ElectrumX=ElectrumX,
+                RPCError=RPCError, StubDB=StubDB, HookedCache=HookedCache, StubBP=StubBP, StubODB=StubODB,
+                cache_codes=cache_codes)
+    return _cls
 
 
 def hdr(name):
     return name.ljust(HDR, b'\0')
 
 
+# what one backed-out block does to readers, measured on the source by `derive_placement`:
+# a tuple of (kind, thread), e.g. (('state', 'W'), ('truncate', 'L'))
+_pattern = (('state', 'W'), ('truncate', 'L'))
+_mismatch = []        # first back-out of the run whose effects were not `_pattern` per block
+
+
+class Backout:
+    """One run of the real `BlockProcessor.reorg_chain(count)`: the coroutine is resumed on the calling
+    (main) thread, its `backup_block` jobs run in the second thread.  `step` is the smallest advance:
+    start the pending job (it runs to its first pause) / resume the paused job / deliver the finished
+    job's result and run the coroutine to its next `backup_block` job or its end."""
+
+    def __init__(self, real, count, inline_ok=False):
+        global _sink, _hold_at
+        self.real, self.count = real, count
+        self.effects = []
+        self.done = False
+        self.susp = None
+        self.job = None                # 'unstarted' | 'held' | 'finished'
+        self.inline_ok = inline_ok
+        bp = real.block_processor()
+        classes()['StubODB'].source = real
+        _sink, _hold_at = self.effects, 0
+        self.coro = bp.reorg_chain(count)
+        self._run_coro()
+
+    def _run_coro(self):
+        """Other jobs on the way (the flush before the reorg -- nothing to flush --, the header reads of
+        _reorg_hashes) are performed and delivered at once."""
+        global _sink
+        while True:
+            try:
+                s = self.coro.send(None)
+            except StopIteration:
+                self.done, self.susp, self.job = True, None, None
+                _sink = None
+                return
+            if not isinstance(s, Suspend):
+                raise RuntimeError(f'reorg_chain suspended on {s!r}')
+            if getattr(s.func, '__name__', '') == 'backup_block':
+                self.susp, self.job = s, 'unstarted'
+                return
+            s.value = s.func(*s.args)
+            s.performed = True
+
+    def worker_step(self):
+        """advance the second thread only; False if it has nothing to do.  A job that is to run from start
+        to end with nothing in between (a block above the held one in a `BB` over several blocks: `_hold_at`
+        is not before its last effect) needs no second thread to be what it is: it is run here, its effects
+        labelled 'W' as the effects of a `run_in_thread` job (saves two thread switches per block)."""
+        global _inline_job
+        w = worker()
+        if self.job == 'unstarted':
+            s = self.susp
+            if self.inline_ok and _hold_at >= len(self.effects) + len(_pattern):
+                _inline_job = True
+                try:
+                    w.result = s.func(*s.args)
+                finally:
+                    _inline_job = False
+                self.job = 'finished'
+                return True
+            self.job = 'held' if w.begin(lambda: s.func(*s.args)) else 'finished'
+            return True
+        if self.job == 'held':
+            self.job = 'held' if w.resume() else 'finished'
+            return True
+        return False
+
+    def step(self):
+        if self.done:
+            return False
+        if not self.worker_step():     # the job has finished: back to the coroutine
+            self.susp.value = worker().result
+            self._run_coro()
+        self.real.note_visible()
+        return True
+
+    def advance_to(self, k):
+        """run until k effects have happened; the second thread is held right after the k-th if it is the
+        one that performs it (an effect of the main thread is followed by the rest of the coroutine's step)"""
+        global _hold_at
+        _hold_at = k
+        while len(self.effects) < k and self.step():
+            pass
+
+    def run_out(self):
+        global _hold_at
+        _hold_at = 0
+        while self.step():
+            pass
+
+    def abandon(self):
+        global _sink
+        try:
+            while self.job == 'held':
+                self.worker_step()
+        except Exception:
+            pass
+        if not self.done:
+            self.coro.close()
+        _sink = None
+
+
 class Real:
     def __init__(self, src, dh, n):
-        dbmod, Merkle, MerkleCache, ElectrumX, RPCError = _classes()
-        self.dbmod, self.ElectrumX, self.RPCError = dbmod, ElectrumX, RPCError
-        StubDB, HookedCache = make_stub_classes()
-        db = self.db = StubDB()
+        c = classes()
+        dbmod = self.dbmod = c['dbmod']
+        self.ElectrumX, self.RPCError = c['ElectrumX'], c['RPCError']
+        db = self.db = c['StubDB']()
         db.coin = types.SimpleNamespace(header_hash=lambda h: h.rstrip(b'\0'), GENESIS_HASH='00')
         db.headers_file = _HeadersFile()
         db.headers_file.write(0, b''.join(hdr(x) for x in src))
@@ -248,30 +474,67 @@ class Real:
         db.logger = logging.getLogger('hc-stub')
         db.fs_height = len(src) - 1
         db.fs_tx_count = len(src)
-        db.state = dbmod.ChainState(height=len(src) - 1, tx_count=len(src), chain_size=0, tip=b'', flush_count=0,
+        db.tx_counts = array.array('Q', range(1, len(src) + 1))
+        db.state = dbmod.ChainState(height=len(src) - 1, tx_count=len(src), chain_size=0, tip=src[-1], flush_count=0,
                                     sync_time=0, flush_time=0, first_sync=False, db_version=8, utxo_count=0)
         db.last_flush_state = db.state.copy()
-        db.merkle = Merkle(hash_func=term)
-        db.header_mc = HookedCache(db.merkle, db.fs_block_hashes)
-        c = self.cache = db.header_mc
-        c.length = n
-        c.depth_higher = dh
-        c.level = db.merkle.level(list(src[:n]), dh)
-        c.initialized.set()
+        db.merkle = c['Merkle'](hash_func=term)
+        db.header_mc = c['HookedCache'](db.merkle, db.fs_block_hashes)
+        mc = self.cache = db.header_mc
+        mc.length = n
+        mc.depth_higher = dh
+        mc.level = db.merkle.level(list(src[:n]), dh)
+        mc.initialized.set()
         self.session = types.SimpleNamespace(db=db)
+        self.bp = None
         self.reqs = []            # dicts: coro, susp, result, cp, height, h0
         self.pending = None       # half-done back-out target (number of hashes kept)
         self.before = None        # the visible hashes before the half-done back-out
+        self.backout = None       # the Backout in progress
+        self.appends = 0          # AP events so far (the headers file changes only then)
+        self._vis_key = self._vis = None
         self.hist = [self.visible()]
-        self.fresh = 0
-        self.order_seen = None
+        self.mlines = []          # per event: the model's lines for it
+        self.last_effects = None
         self.violations = []      # (clause, detail) found by the direct oracle
 
     # -- observation
     def visible(self):
         n = self.db.state.height + 1
-        buf = self.db.headers_file.buf
-        return tuple(bytes(buf[i * HDR:(i + 1) * HDR]).rstrip(b'\0') for i in range(n))
+        key = (n, self.appends)
+        if key != self._vis_key:
+            buf = self.db.headers_file.buf
+            self._vis = tuple(bytes(buf[i * HDR:(i + 1) * HDR]).rstrip(b'\0') for i in range(n))
+            self._vis_key = key
+        return self._vis
+
+    def note_visible(self):
+        v = self.visible()
+        if v is not self.hist[-1] and v != self.hist[-1]:
+            self.hist.append(v)
+
+    def block_processor(self):
+        """the real BlockProcessor, as `fetch_and_process_blocks` would have it on this DB"""
+        bp = self.bp
+        if bp is None:
+            bp = self.bp = classes()['StubBP']()
+            bp.db = self.db
+            bp.coin = types.SimpleNamespace(GENESIS_ACTIVATION=0, header_prevhash=lambda header: header,
+                                            CHAIN_SIZE_HEIGHT=0, CHAIN_SIZE=0, AVG_BLOCK_SIZE=0)
+            bp.daemon = types.SimpleNamespace(cached_height=lambda: 0)
+            bp.touched = set()
+            bp.headers, bp.tx_hashes, bp.undo_infos, bp.utxo_cache, bp.db_deletes = [], [], [], {}, []
+            bp.ok = True
+            bp.force_flush_arg = None
+            bp.backed_up_event = _NoEvent
+        bp.state = self.db.state.copy()
+        return bp
+
+    def block(self, block_hash):
+        """the block with this hash on the visible chain (for `OnDiskBlock.streamed_block`)"""
+        v = self.visible()
+        h = v.index(block_hash)
+        return FakeBlock(h, v[h - 1] if h else b'')
 
     def _advance(self, r):
         """run request r's coroutine to its next suspension or its end"""
@@ -298,14 +561,15 @@ class Real:
         for S in self.hist[r['h0']:]:
             if length <= len(S) and plain_branch_root(S[:length], index) == (br, root):
                 return
-        self.violations.append(('header proof does not verify against any chain current during the request',
+        self.violations.append((UNSAFE_CLAUSE,
                                 f'request #{self.reqs.index(r)} block.header({index}, cp={r["cp"]}) answered root '
                                 f'{root.decode()}; chains visible during the request: '
                                 + ' / '.join(','.join(x.decode() for x in S) for S in self.hist[r['h0']:])))
 
     # -- events
-    def ev(self, e):
+    def ev(self, e, judge_cache=True):
         kind = e[0]
+        mlines = [ev_line(e)]
         if kind == 'ST':
             cp, height = e[1], e[2]
             r = {'coro': self.ElectrumX._merkle_proof(self.session, cp, height), 'susp': None, 'result': None,
@@ -328,15 +592,17 @@ class Real:
                 self._advance(r)
         elif kind == 'BB':
             n = e[1]
-            if self.pending is None and 0 < n < len(self.hist[-1]):
-                db = self.db
-                st = db.state.copy()
-                st.height, st.tx_count = n - 1, n
-                fd = self.dbmod.FlushData(state=st, headers=[], block_tx_hashes=[], undo_infos=[], adds={}, deletes=[])
-                self.before = self.hist[-1]
-                held = worker().begin(lambda: self.dbmod.DB.flush_backup(db, fd, set()))
+            vis = len(self.hist[-1])
+            if self.pending is None and 0 < n < vis:
+                count = vis - n
+                k = len(_pattern)
+                bo = self.backout = Backout(self, count, inline_ok=True)
+                bo.advance_to(k * (count - 1))     # the blocks above the last one: without interleaving
+                self.before = self.visible()
+                bo.advance_to(k * (count - 1) + 1)  # the last one: up to its first effect on readers
                 self.pending = n
-                if not held:
+                mlines = [l for j in range(count - 1) for l in (f'BB {vis - 1 - j}', 'BE')] + [f'BB {n}']
+                if bo.done:
                     self._end_backout()
         elif kind == 'BE':
             if self.pending is not None:
@@ -347,32 +613,40 @@ class Real:
                 db = self.db
                 h = db.state.height
                 db.headers_file.write((h + 1) * HDR, b''.join(hdr(x) for x in names))
+                self.appends += 1
                 db.fs_height = h + len(names)
+                db.fs_tx_count = h + len(names) + 1
+                db.tx_counts.extend(range(h + 2, h + len(names) + 2))
                 st = db.state.copy()
-                st.height, st.tx_count = h + len(names), h + len(names) + 1
+                st.height, st.tx_count, st.tip = h + len(names), h + len(names) + 1, names[-1]
                 db.state = st
         else:
             raise ValueError(e)
-        v = self.visible()
-        if v != self.hist[-1]:
-            self.hist.append(v)
-        self._judge_cache()
+        self.mlines.append(mlines)
+        self.note_visible()
+        if judge_cache:
+            self._judge_cache()
 
     def _end_backout(self):
-        effects = worker().finish()
-        self.pending = None
-        self.before = None
-        self.order_seen = tuple(k for k, _a in effects)
+        bo = self.backout
+        bo.run_out()
+        self.pending = self.before = self.backout = None
+        self.last_effects = tuple(bo.effects)
+        if tuple((k, t) for k, _a, t in bo.effects) != _pattern * bo.count and not _mismatch:
+            # the places where this back-out was held are still places where the real code can be held, so the
+            # direct oracle stays valid; what no longer holds is that the model was given the right events
+            _mismatch.append(f'a back-out of {bo.count} blocks had the effects {bo.effects}, not {bo.count} times '
+                             f'the measured {_pattern}')
 
     def _judge_cache(self):
         c = self.cache
         ref = self.before if self.pending is not None else self.hist[-1]
         what = 'the chain before the half-done back-out' if self.pending is not None else 'the visible chain'
         if c.length > len(ref):
-            self.violations.append(('header cache inconsistent with the chain',
+            self.violations.append((CACHE_CLAUSE,
                                     f'cache length {c.length} exceeds the {len(ref)} hashes of {what}'))
         elif list(c.level) != plain_level(ref[:c.length], c.depth_higher):
-            self.violations.append(('header cache inconsistent with the chain',
+            self.violations.append((CACHE_CLAUSE,
                                     f'cache level {",".join(x.decode() for x in c.level)} is not the level of {what} '
                                     f'{",".join(x.decode() for x in ref[:c.length])}'))
 
@@ -417,39 +691,70 @@ class Real:
         dl = [i for i, r in enumerate(self.reqs) if r['susp'] is not None and r['susp'].performed]
         return pf, dl
 
+    def finish_requests(self, limit=60):
+        """perform and deliver every pending read, in request order, until no request is active"""
+        for _ in range(limit):
+            pf, dl = self.enabled()
+            if pf:
+                self.ev(('PF', pf[0]), judge_cache=False)
+            elif dl:
+                self.ev(('DL', dl[0]), judge_cache=False)
+            else:
+                return True
+        return False
+
     def close(self):
-        if self.pending is not None:
-            self._end_backout()
+        if self.backout is not None:
+            self.backout.abandon()
+            self.backout = None
         for r in self.reqs:
             if r['susp'] is not None:
                 r['coro'].close()
 
 
 class patched_run_in_thread:
-    """`electrumx.server.db.run_in_thread` held for the duration of the suite, restored afterwards"""
+    """`run_in_thread` of db.py and block_processor.py and `OnDiskBlock` of block_processor.py held for
+    the duration of the suite, restored afterwards"""
 
     def __enter__(self):
-        import electrumx.server.db as dbmod
-        self.dbmod, self.saved = dbmod, dbmod.run_in_thread
-        dbmod.run_in_thread = held_run_in_thread
+        c = classes()
+        self.saved = (c['dbmod'].run_in_thread, c['bpmod'].run_in_thread, c['bpmod'].OnDiskBlock)
+        c['dbmod'].run_in_thread = held_run_in_thread
+        c['bpmod'].run_in_thread = held_run_in_thread
+        c['bpmod'].OnDiskBlock = c['StubODB']
 
     def __exit__(self, *a):
-        self.dbmod.run_in_thread = self.saved
+        c = classes()
+        c['dbmod'].run_in_thread, c['bpmod'].run_in_thread, c['bpmod'].OnDiskBlock = self.saved
         return False
 
 
-def derive_order():
-    """Run the real `DB.flush_backup` once and report in which order it lowers `DB.state` and
-    truncates the header cache: 'lower-first' / 'trunc-first'."""
+def derive_placement():
+    """Run the real `reorg_chain(1)` once and report what backing out one block does to the readers of
+    the header cache, in order, and on which thread: -> dict(pattern, order, thread, ok).
+    `order`: 'lower-first' / 'trunc-first'; `thread`: 'loop' / 'worker' (where `truncate` runs)."""
+    global _pattern
+    del _mismatch[:]
     real = Real([b'a', b'b', b'c', b'd'], 0, 4)
-    real.ev(('BB', 2))
-    first = list(worker().effects)
-    real.ev(('BE',))
-    kinds = real.order_seen
-    real.close()
-    if len(first) != 1 or sorted(kinds) != ['state', 'truncate']:
-        raise RuntimeError(f'DB.flush_backup no longer lowers DB.state and truncates header_mc exactly once each: {kinds}')
-    return 'lower-first' if kinds[0] == 'state' else 'trunc-first'
+    try:
+        bo = Backout(real, 1)
+        bo.run_out()
+        effects = list(bo.effects)
+    finally:
+        real.close()
+    _pattern = tuple((k, t) for k, _a, t in effects)
+    kinds = [k for k, _t in _pattern]
+    if 'state' not in kinds or real.visible() != (b'a', b'b', b'c'):
+        raise RuntimeError(f'reorg_chain(1) does not lower DB.state by one block: effects {effects}')
+    ok = sorted(kinds) == ['state', 'truncate'] and [a for k, a, _t in effects if k == 'truncate'] == [3]
+    order = 'trunc-first' if kinds[0] == 'truncate' else 'lower-first'
+    thread = {'W': 'worker', 'L': 'loop'}.get(next((t for k, t in _pattern if k == 'truncate'), None), 'nowhere')
+    return {'pattern': _pattern, 'order': order, 'thread': thread, 'ok': ok,
+            'text': ', '.join(f'{k}({a})@{"worker" if t == "W" else "loop"}' for k, a, t in effects) or 'none'}
+
+
+def derive_order():
+    return derive_placement()['order']
 
 
 # ---- running one event sequence -----------------------------------------------------------------
@@ -487,7 +792,8 @@ def new_line(flags, dh, n, src):
 
 
 def run_real(src, dh, n, evs, every=True):
-    """-> (state lines after each event (or only the last), violations [(event index, clause, detail)], Real.enabled())"""
+    """-> (state lines after each event (or only the last), violations [(event index, clause, detail)],
+    Real.enabled(), the model's lines per event)"""
     real = Real(src, dh, n)
     shown, viols = [], []
     try:
@@ -501,7 +807,7 @@ def run_real(src, dh, n, evs, every=True):
         en = real.enabled() + (real.pending, len(real.hist[-1]), len(real.reqs))
     finally:
         real.close()
-    return shown, viols, en
+    return shown, viols, en, real.mlines
 
 
 class Batch:
@@ -509,15 +815,23 @@ class Batch:
 
     def __init__(self, flags):
         self.flags = flags
-        self.lines, self.expect, self.cases = [], [], []
+        self.lines, self.expect, self.cases, self.evidx = [], [], [], []
 
-    def add(self, case, shown_last_only, shown):
+    def add(self, case, shown_last_only, shown, mlines):
+        """`mlines[i]` = the model's lines for event i (a `BB` over several blocks is one `BB`/`BE` pair
+        per block); the state line is compared after the last of them"""
         src, dh, n, evs = case
         self.cases.append((len(self.lines), case))
         self.lines.append(new_line(self.flags, dh, n, src))
         self.expect.append(None)
+        self.evidx.append(0)
         for i, e in enumerate(evs):
-            self.lines.append(ev_line(e))
+            for l in mlines[i][:-1]:
+                self.lines.append(l)
+                self.expect.append(None)
+                self.evidx.append(i)
+            self.lines.append(mlines[i][-1])
+            self.evidx.append(i)
             if shown_last_only:
                 self.expect.append(shown[0] if i == len(evs) - 1 else None)
             else:
@@ -535,7 +849,7 @@ class Batch:
                 k = bisect.bisect_right(starts, i) - 1
                 s, (src, dh, n, evs) = self.cases[k]
                 res.disagreements.append({'suite': 'headercache', 'dh': dh, 'n': n, 'src': [x.decode() for x in src],
-                                          'flags': self.flags, 'events': [ev_line(x) for x in evs[:i - s]],
+                                          'flags': self.flags, 'events': [ev_line(x) for x in evs[:self.evidx[i] + 1]],
                                           'code': e, 'model': g})
                 bad += 1
                 if bad >= limit:
@@ -544,7 +858,7 @@ class Batch:
 
 def shrink_violation(src, dh, n, evs, clause):
     def fails(sub):
-        _s, v, _e = run_real(src, dh, n, list(sub), every=False)
+        _s, v, _e, _m = run_real(src, dh, n, list(sub), every=False)
         return any(c == clause for _i, c, _d in v)
     evs = list(evs)
     try:
@@ -562,7 +876,7 @@ def report(res, src, dh, n, evs, viols, seen, tag=''):
             continue
         seen.add((clause, tag))
         small = shrink_violation(src, dh, n, evs[:i + 1], clause)
-        _s, v2, _e = run_real(src, dh, n, small, every=False)
+        _s, v2, _e, _m = run_real(src, dh, n, small, every=False)
         d2 = next((d for _i, c, d in v2 if c == clause), detail)
         res.violations.append({'suite': 'headercache', 'clause': clause, 'detail': d2, 'dh': dh, 'n': n,
                                'src': [x.decode() for x in src], 'events': [ev_line(e) for e in small],
@@ -589,6 +903,12 @@ def corpus():
          'events': ['BB 7', 'ST 8 0', 'PF 0', 'DL 0', 'BE', 'AP n0,n1', 'PF 0', 'DL 0', 'PF 0', 'DL 0',
                     'ST 8 0', 'PF 1', 'DL 1', 'PF 1', 'DL 1', 'PF 1', 'DL 1'],
          'shape': lambda lines: any(l.split(' | ')[2].split()[1] != '-' and l.split(' | ')[3] for l in lines)},
+        # the F18 window of ONE block (what reorg_chain really opens): a request for the old tip is refused in
+        # it when DB.state is lowered first, and extends the cache over the block being undone otherwise
+        {'name': 'F18-one-block', 'src': S9, 'dh': 1, 'n': 4,
+         'events': ['BB 8', 'ST 8 0', 'PF 0', 'DL 0', 'BE', 'AP n0,n1', 'PF 0', 'DL 0', 'PF 0', 'DL 0',
+                    'ST 8 0', 'PF 1', 'DL 1', 'PF 1', 'DL 1', 'PF 1', 'DL 1'],
+         'shape': lambda lines: any(l.split(' | ')[2].split()[1] != '-' and l.split(' | ')[3] for l in lines)},
         # the same window with a checkpoint below the back-out target (accepted under either order)
         {'name': 'F18b', 'src': S9, 'dh': 1, 'n': 4,
          'events': ['BB 7', 'ST 6 0', 'PF 0', 'DL 0', 'BE', 'AP n0,n1', 'PF 0', 'DL 0', 'PF 0', 'DL 0',
@@ -599,12 +919,12 @@ def corpus():
         {'name': 'F19', 'src': S9, 'dh': 1, 'n': 4,
          'events': ['ST 8 1', 'PF 0', 'DL 0', 'BB 5', 'BE', 'AP n0,n1,n2,n3', 'PF 0', 'DL 0', 'PF 0', 'DL 0',
                     'PF 0', 'DL 0', 'PF 0', 'DL 0', 'PF 0', 'DL 0'],
-         'shape': lambda lines: any(' | L ' in l and l.split(' | ')[1] == '1' for l in lines)},
+         'shape': lambda lines: any(' | L ' in l and l.split(' | ')[1] != '0' for l in lines)},
         # F19 with the cache already long enough at the start (no extension at all)
         {'name': 'F19-cached', 'src': S9, 'dh': 1, 'n': 9,
          'events': ['ST 8 0', 'BB 4', 'BE', 'AP n0,n1,n2,n3,n4', 'PF 0', 'DL 0', 'PF 0', 'DL 0', 'PF 0', 'DL 0',
                     'PF 0', 'DL 0', 'PF 0', 'DL 0'],
-         'shape': lambda lines: any(' | L ' in l and l.split(' | ')[1] == '1' for l in lines)},
+         'shape': lambda lines: any(' | L ' in l and l.split(' | ')[1] != '0' for l in lines)},
         # F17 leaving the cache itself inconsistent (found by the random schedules on the pinned _extend_to):
         # three extensions in flight over a growing chain
         {'name': 'F17-cache', 'src': src_names(13), 'dh': 2, 'n': 5,
@@ -660,9 +980,9 @@ def enumerate_scope(res, batch, scope, seen_clauses, budget):
             cand.append(('BE',))
         for e in cand:
             seq = concretise(evs + [e])
-            shown, viols, en = run_real(src, dh, n, seq, every=False)
+            shown, viols, en, ml = run_real(src, dh, n, seq, every=False)
             nodes += 1
-            batch.add((src, dh, n, seq), True, shown)
+            batch.add((src, dh, n, seq), True, shown, ml)
             nontrivial = sum(1 for x in seq if x[0] == 'ST') >= 2 or any(x[0] == 'BB' for x in seq)
             res.note_case(f'{name}|' + ';'.join(ev_line(x) for x in seq), nontrivial=nontrivial)
             if viols:
@@ -686,7 +1006,7 @@ def random_schedule(rng, res):
     n = rng.randrange(1, slen + 1)
     src = src_names(slen)
     real = Real(src, dh, n)
-    evs, viols = [], []
+    evs, viols, shown = [], [], []
     shape = rng.choice(['two-ext', 'cross-segment', 'regrow', 'window', 'mixed', 'mixed'])
     fresh = 0
     steps = rng.randrange(8, 40)
@@ -741,6 +1061,7 @@ def random_schedule(rng, res):
                 fresh += len(e[1])
             evs.append(e)
             real.ev(e)
+            shown.append(real.show())
             while real.violations:
                 c, d = real.violations.pop(0)
                 viols.append((len(evs) - 1, c, d))
@@ -748,7 +1069,7 @@ def random_schedule(rng, res):
                 break
     finally:
         real.close()
-    return src, dh, n, evs, viols, shape
+    return src, dh, n, evs, viols, shape, shown, real.mlines
 
 
 def shape_stats(res, lines, evs):
@@ -774,6 +1095,205 @@ def shape_stats(res, lines, evs):
     return two_ext, window_start
 
 
+# ---- preemption probe (finding N7) --------------------------------------------------------------
+
+class LineStops:
+    """A `sys.settrace` function for ONE thread: counts the 'line' events of `MerkleCache` code (the
+    methods of the real class) executed on that thread and calls `at_stop` before the k-th line
+    (k = None: count only).  A line event comes before the line runs, i.e. between two statements."""
+
+    def __init__(self, k, at_stop):
+        self.k, self.at_stop = k, at_stop
+        self.count, self.where, self.hit = 0, None, False
+        self.codes = classes()['cache_codes']
+
+    def __call__(self, frame, event, arg):
+        return self.local if frame.f_code in self.codes else None
+
+    def local(self, frame, event, arg):
+        if event == 'line':
+            self.count += 1
+            if self.count == self.k:
+                import linecache
+                text = linecache.getline(frame.f_code.co_filename, frame.f_lineno).strip()
+                self.where = f'{frame.f_code.co_name}, before `{text}`'
+                self.hit = True
+                self.at_stop()
+        return self.local
+
+
+def _after_backout(real, tag):
+    """the rest of a probe case: the cache is judged now that the back-out is over, the requests finish,
+    two new blocks arrive and proofs up to the end of the cache and up to the new tip are requested"""
+    real._judge_cache()
+    real.finish_requests()
+    vis = len(real.hist[-1])
+    real.ev(('AP', [f'{tag}0'.encode(), f'{tag}1'.encode()]))
+    for cp in (real.cache.length - 1, vis + 1):       # up to where the cache ends / up to the new tip
+        if 0 <= cp < vis + 2:
+            real.ev(('ST', cp, 0))
+            real.finish_requests()
+    real._judge_cache()
+
+
+def probe_T(src, dh, n, target, k, req):
+    """(T) back out to `target` hashes; the second thread is stopped before the k-th line of MerkleCache
+    code IT executes; in that gap request `req` = (cp, height) is started and served to its end on the
+    main thread.  -> (where it stopped or None, lines counted, violations)"""
+    real = Real(src, dh, n)
+    w = worker()
+    tr = LineStops(k, w.pause)
+    try:
+        w.trace = tr
+        bo = real.backout = Backout(real, len(src) - target)
+        served = False
+        while True:
+            if tr.hit and not served:
+                served = True
+                real.ev(('ST', req[0], req[1]), judge_cache=False)
+                real.finish_requests()
+            if not bo.step():
+                break
+        real.backout = None
+        w.trace = None
+        _after_backout(real, 'p')
+        return tr.where, tr.count, list(real.violations)
+    finally:
+        w.trace = None
+        real.close()
+
+
+def probe_L(src, dh, n, req, target, d, k):
+    """(L) request `req` = (cp, height) is started and taken through d read round trips; its next read is
+    performed; a back-out to `target` hashes is begun up to the point where its job waits for a
+    thread; the read is delivered and the main thread is stopped before the k-th line of MerkleCache
+    code of that step; in that gap the second thread runs the whole job.  The rest of the back-out
+    follows the step.  -> (where it stopped or None, lines counted, violations)"""
+    real = Real(src, dh, n)
+    try:
+        real.ev(('ST', req[0], req[1]))
+        for _ in range(d):
+            real.ev(('PF', 0))
+            real.ev(('DL', 0))
+        real.ev(('PF', 0))
+        if not real.enabled()[1]:
+            return None, 0, []                     # the request is over: nothing to deliver
+        bo = real.backout = Backout(real, len(src) - target)
+
+        def gap():
+            while bo.worker_step():
+                pass
+            real.note_visible()
+        tr = LineStops(k, gap)
+        sys.settrace(tr)
+        try:
+            real.ev(('DL', 0), judge_cache=False)
+        finally:
+            sys.settrace(None)
+        bo.run_out()
+        real.backout = None
+        _after_backout(real, 'q')
+        return tr.where, tr.count, list(real.violations)
+    finally:
+        sys.settrace(None)
+        real.close()
+
+
+PROBE_T = [   # (visible hashes, depth_higher, cache length, back-out target)
+    (9, 1, 9, 8), (9, 1, 9, 7), (7, 0, 7, 6), (9, 2, 9, 8), (9, 1, 6, 8),
+]
+PROBE_L = [   # (visible hashes, depth_higher, cache length, request, back-out target)
+    (9, 1, 4, (8, 0), 8), (9, 1, 9, (8, 0), 8), (9, 1, 4, (7, 1), 8), (7, 0, 3, (6, 0), 5), (9, 2, 5, (8, 7), 7),
+]
+
+
+def probe_requests(target):
+    cps = sorted({target - 1, target - 2, max(0, target // 2)})
+    return [(cp, h) for cp in cps if cp >= 0 for h in sorted({0, cp})]
+
+
+def run_probe(case):
+    """-> (where, lines, [(clause, detail)])"""
+    src = [x.encode() for x in case['src']]
+    if case['probe'] == 'T':
+        return probe_T(src, case['dh'], case['n'], case['target'], case['stop'], tuple(case['request']))
+    return probe_L(src, case['dh'], case['n'], tuple(case['request']), case['target'], case['round_trips'],
+                   case['stop'])
+
+
+def probe_text(case, where):
+    if case['probe'] == 'T':
+        return (f'{len(case["src"])} hashes, cache of {case["n"]} (depth_higher {case["dh"]}); back-out to '
+                f'{case["target"]} hashes; the thread running it is preempted inside {where}; in that gap '
+                f'block.header({case["request"][1]}, cp={case["request"][0]}) is served to its end')
+    return (f'{len(case["src"])} hashes, cache of {case["n"]} (depth_higher {case["dh"]}); '
+            f'block.header({case["request"][1]}, cp={case["request"][0]}) after {case["round_trips"]} read round trips; '
+            f'the event-loop thread is preempted inside {where}; in that gap the worker thread runs the whole '
+            f'back-out job to {case["target"]} hashes')
+
+
+def preemption_probe(res, placement):
+    """Both directions over the small menus above, every line stop.  Violations carry a replayable
+    probe case; at most one per direction is reported."""
+    found = {}
+    stops = {'T': 0, 'L': 0}
+    for slen, dh, n, target in PROBE_T:
+        src = src_names(slen)
+        base = {'suite': 'headercache', 'probe': 'T', 'src': [x.decode() for x in src], 'dh': dh, 'n': n,
+                'target': target}
+        _w, lines, base_viols = probe_T(src, dh, n, target, None, None)
+        stops['T'] += lines
+        res.note_case(f'probeT|{slen}|{dh}|{n}|{target}|count', nontrivial=False)
+        if base_viols:                 # fails without any preemption: for the corpus / schedules / scopes to report
+            res.bump('probe configurations that fail without preemption (not probed)')
+            continue
+        for k in range(1, lines + 1):
+            for req in probe_requests(target):
+                case = dict(base, stop=k, request=list(req))
+                where, _l, viols = run_probe(case)
+                res.bump('probe T cases (worker thread stopped inside MerkleCache code, request served in the gap)')
+                res.note_case(f'probeT|{slen}|{dh}|{n}|{target}|{k}|{req}', nontrivial=True)
+                if viols and 'T' not in found:
+                    found['T'] = (case, where, viols[0])
+    for slen, dh, n, req, target in PROBE_L:
+        src = src_names(slen)
+        base = {'suite': 'headercache', 'probe': 'L', 'src': [x.decode() for x in src], 'dh': dh, 'n': n,
+                'target': target, 'request': list(req)}
+        for d in range(0, 6):
+            _w, lines, base_viols = probe_L(src, dh, n, req, target, d, None)
+            if not lines:
+                break
+            stops['L'] += lines
+            if base_viols:
+                res.bump('probe configurations that fail without preemption (not probed)')
+                continue
+            for k in range(1, lines + 1):
+                case = dict(base, round_trips=d, stop=k)
+                where, _l, viols = run_probe(case)
+                res.bump('probe L cases (event-loop thread stopped inside MerkleCache code, back-out job run in the gap)')
+                res.note_case(f'probeL|{slen}|{dh}|{n}|{req}|{target}|{d}|{k}', nontrivial=True)
+                if viols and 'L' not in found:
+                    found['L'] = (case, where, viols[0])
+    res.bump('probe T: lines of MerkleCache code executed off the event-loop thread during back-outs', stops['T'])
+    res.bump('probe L: line stops inside request steps', stops['L'])
+    if not stops['L']:
+        res.harness_errors.append('preemption probe L reaches no line of MerkleCache code')
+    if placement['thread'] == 'worker' and not stops['T']:
+        res.harness_errors.append('preemption probe T reaches no line of MerkleCache code although truncate runs '
+                                  'in the worker thread')
+    for key in ('T', 'L'):
+        if key in found:
+            case, where, (clause, detail) = found[key]
+            res.violations.append(dict(case, clause=clause, where=where, corpus='N7',
+                                       detail=f'[thread preemption] {probe_text(case, where)}: {detail}'))
+    if placement['thread'] != 'loop' and not found:
+        res.disagreements.append({'suite': 'headercache', 'where': 'atomicity of the truncation',
+                                  'code': f'header_mc.truncate runs on the {placement["thread"]} thread ({placement["text"]}): '
+                                          f'{stops["T"]} places where event-loop code can run inside it',
+                                  'model': 'boEnd is one atomic step (needs the truncation on the event-loop thread)'})
+    return found
+
+
 # ---- entry points -------------------------------------------------------------------------------
 
 def run(tier, seed):
@@ -781,11 +1301,19 @@ def run(tier, seed):
     res.rule = ('case = (visible hashes, depth_higher, initial cache length, event sequence over request start / '
                 'worker read performed / read delivered / back-out begin / back-out end / append); every sequence '
                 'of every scope up to its length bound (replayed from scratch on fresh real objects), the corpus, and '
-                'seeded random schedules of 8..40 events; non-trivial = two or more requests, or a back-out')
+                'seeded random schedules of 8..40 events; non-trivial = two or more requests, or a back-out.  '
+                'Preemption probe: case = (configuration, back-out, thread stopped, line stop, request); every line '
+                'stop of every configuration of the two menus')
     res.exhaustive = True
     with patched_run_in_thread():
-        order = derive_order()
-        res.bump(f'flush_backup order measured on the source: {order}')
+        pl = derive_placement()
+        order = pl['order']
+        res.bump(f'back-out of one block measured on the source: {pl["text"]}')
+        res.bump(f'order measured on the source: {order}; header_mc.truncate runs on the {pl["thread"]} thread')
+        if not pl['ok']:
+            res.disagreements.append({'suite': 'headercache', 'where': 'effects of a back-out',
+                                      'code': pl['text'], 'model': 'per block: DB.state lowered by one and '
+                                      'header_mc.truncate(new height + 1), once each'})
         flags = '11' + ('1' if order == 'lower-first' else '0')
         if os.environ.get('HC_VARIANT'):           # development aid: compare with another model variant
             flags = os.environ['HC_VARIANT']
@@ -794,22 +1322,23 @@ def run(tier, seed):
         # 1. corpus
         for c in corpus():
             evs = [parse_line(l) for l in c['events']]
-            shown, viols, _en = run_real(c['src'], c['dh'], c['n'], evs)
-            batch.add((c['src'], c['dh'], c['n'], evs), False, shown)
+            shown, viols, _en, ml = run_real(c['src'], c['dh'], c['n'], evs)
+            batch.add((c['src'], c['dh'], c['n'], evs), False, shown, ml)
             res.note_case('corpus|' + c['name'])
             if not c['shape'](shown):
                 res.harness_errors.append(f'corpus sequence {c["name"]} no longer reaches its shape')
             if viols:
                 report(res, c['src'], c['dh'], c['n'], evs, viols[:1], seen_clauses, tag=c['name'])
             res.sample({'corpus': c['name'], 'dh': c['dh'], 'n': c['n'], 'events': c['events']}, limit=5)
+        # 1b. thread preemption inside the steps the model takes as atomic (N7)
+        preemption_probe(res, pl)
         # 2. seeded random schedules
         nrand = 2500 if tier == 'quick' else 60000
         rng = rng_for(seed, 'headercache', tier)
         two = win = 0
         for k in range(nrand):
-            src, dh, n, evs, viols, shape = random_schedule(rng, res)
-            shown, viols2, _en = run_real(src, dh, n, evs)
-            batch.add((src, dh, n, evs), False, shown)
+            src, dh, n, evs, viols2, shape, shown, ml = random_schedule(rng, res)
+            batch.add((src, dh, n, evs), False, shown, ml)
             res.bump(f'random shape {shape}')
             t, w = shape_stats(res, shown, evs)
             two += t
@@ -826,14 +1355,24 @@ def run(tier, seed):
             if len(res.violations) >= 3:
                 break
         batch.compare(res)
-    res.violations = res.violations[:3]
+        if _mismatch:
+            res.disagreements.append({'suite': 'headercache', 'where': 'effects of a back-out', 'code': _mismatch[0],
+                                      'model': 'per block: DB.state lowered by one and header_mc.truncate(new height + 1), '
+                                               'once each, whatever the cache length'})
+    res.violations = sorted(res.violations, key=lambda v: v.get('corpus') != 'N7')[:3]
     return res
 
 
 def replay(case):
+    if case.get('probe'):
+        with patched_run_in_thread():
+            derive_placement()
+            where, _lines, viols = run_probe(case)
+        return [f'{probe_text(case, where)}: {c}: {d}' for c, d in viols]
     evs = [parse_line(l) for l in case['events']]
     with patched_run_in_thread():
-        _s, viols, _e = run_real([x.encode() for x in case['src']], case['dh'], case['n'], evs)
+        derive_placement()
+        _s, viols, _e, _m = run_real([x.encode() for x in case['src']], case['dh'], case['n'], evs)
     return [f'after event {i} ({case["events"][i]}): {c}: {d}' for i, c, d in viols]
 
 
